@@ -1042,3 +1042,49 @@ mod tests {
         assert_eq!(order.builder_fee_amount(), u64::MAX);
     }
 }
+
+/// Verification hooks (add-only, compiled only with `--cfg gmsol_verif`).
+#[cfg(gmsol_verif)]
+pub mod verif {
+    use super::*;
+
+    /// [`Order::record_builder_fee`].
+    pub fn record_builder_fee(order: &mut Order, amount: u64) -> Result<()> {
+        order.record_builder_fee(amount)
+    }
+
+    /// State injection: overwrite the recorded builder fee amount (the settlement handler
+    /// assigns `0` to this field).
+    pub fn set_builder_fee_amount(order: &mut Order, amount: u64) {
+        order.builder_fee_amount = amount;
+    }
+
+    /// State injection: attach a builder and its fee factor snapshot.
+    pub fn set_builder(order: &mut Order, builder: Pubkey, factor: u128) {
+        order.builder = builder;
+        order.builder_fee_factor = factor;
+    }
+
+    /// Read `gt_reward`.
+    pub fn gt_reward(order: &Order) -> u64 {
+        order.gt_reward
+    }
+
+    /// [`Order::unchecked_process_gt`], the event emitter being built from the given
+    /// event authority.
+    pub fn unchecked_process_gt<'info>(
+        order: &mut Order,
+        store: &mut Store,
+        user: &mut UserHeader,
+        paid_fee_value: u128,
+        event_authority: &AccountInfo<'info>,
+        event_authority_bump: u8,
+    ) -> Result<()> {
+        order.unchecked_process_gt(
+            store,
+            user,
+            paid_fee_value,
+            &EventEmitter::new(event_authority, event_authority_bump),
+        )
+    }
+}
